@@ -146,6 +146,19 @@ def _scan(e, ground_idx, patterns, cache, seen, under_quant):
         _scan(c, ground_idx, patterns, cache, seen, under_quant)
 
 
+def _expand_nested(f, sk_terms):
+    """An instance of a two-level universal hypothesis  forall j. R(j) -> forall k. B(j, k)  is again universal in k.
+    It is instantiated at the skolem constants of the goal (a weakening, hence sound) instead of being handed to
+    the solver as a quantifier inside the otherwise ground query."""
+    def is_q1(e):
+        return z3.is_quantifier(e) and e.is_forall() and e.num_vars() == 1 and e.var_sort(0) == z3.IntSort()
+    if is_q1(f):
+        return [z3.substitute_vars(f.body(), t) for t in sk_terms]
+    if z3.is_implies(f) and is_q1(f.arg(1)):
+        return [z3.Implies(f.arg(0), z3.substitute_vars(f.arg(1).body(), t)) for t in sk_terms]
+    return [f]
+
+
 class Inst:
     def __init__(self):
         self.n_sk = 0
@@ -257,7 +270,8 @@ def ground_query(hyps, goal_item, inst):
                 if key in done:
                     continue
                 done.add(key)
-                new.append(z3.substitute_vars(q.body(), cs))
+                for inst_f in _expand_nested(z3.substitute_vars(q.body(), cs), sk_terms):
+                    new.append(inst_f)
                 total += 1
                 if total >= MAX_INSTANCES:
                     break
